@@ -61,6 +61,10 @@ type CfgIn struct {
 	// what the plugin's Configure method returns (if the type has one)
 	Events uint32 `json:"events"`
 	Err    string `json:"err"`
+	// CancelCtx: the context handed to Start is cancelled as soon as Start has returned (the usual
+	// `ctx, cancel := context.WithTimeout(…); defer cancel(); stub.Start(ctx)` of a plugin's main):
+	// it bounds the start-up, it must not affect the session that follows
+	CancelCtx bool `json:"cancel_ctx"`
 }
 
 type ReqIn struct {
@@ -527,7 +531,9 @@ func (g *rig) play(cfg *CfgIn, reqs []ReqIn, end string, obs *SessionObs) {
 		return nil
 	}()})
 	startC := make(chan error, 1)
-	go func() { startC <- st.Start(context.Background()) }()
+	startCtx, cancelStart := context.WithCancel(context.Background())
+	defer cancelStart() // at the latest when the session is over
+	go func() { startC <- st.Start(startCtx) }()
 	var lconn stdnet.Conn
 	select {
 	case lconn = <-g.connC:
@@ -599,6 +605,9 @@ func (g *rig) play(cfg *CfgIn, reqs []ReqIn, end string, obs *SessionObs) {
 		}
 	case <-time.After(stepDeadline):
 		obs.Start = "blocked"
+	}
+	if cfg.CancelCtx {
+		cancelStart()
 	}
 	obs.CfgCalls = rec.take()
 	obs.RegToNs = int64(st.RegistrationTimeout())
